@@ -42,7 +42,7 @@ def raw_records(buf):
 
 def setup(v, sid, etm, seed, early=False):
     sc = S.scen_for_suite(v, sid, etm)
-    if early:
+    if early is True:
         # the client also offers TLS 1.3 with a PSK and announces early
         # data (which this TLS <= 1.2 server will never see): whatever the
         # server prepared for skipping early data must be gone once the
@@ -72,6 +72,10 @@ def setup(v, sid, etm, seed, early=False):
         if pair.c.session.cipherSuite != sid or tuple(pair.c.version) != v:
             return None
         return pair
+    if early == "hrr":
+        # the handshake goes through a HelloRetryRequest (the client sent
+        # its compatibility ChangeCipherSpec early)
+        sc.cset["keyShares"] = []
     pair, out = S.connect(sc, seed=seed)
     if not (out["C"].status == "ok" and out["S"].status == "ok"):
         return None
@@ -198,13 +202,16 @@ def judge(obs, expected_prefix, fault_is_identity, all_plain,
 def case(item):
     v, sid, etm, tier, seed = item[:5]
     early = len(item) > 5 and item[5] == "early"
+    if len(item) > 5 and item[5] == "hrr":
+        early = "hrr"
     info = S.ALL_INFOS[sid]
     name = "%s/%s%s%s" % (S.VNAME[v], info.name, "" if etm else "/noetm",
+                          "/hrr" if early == "hrr" else
                           "/early-data-hello" if early else "")
     rec = {"name": name, "n": 0, "fails": [], "sigs": set(), "known": 0,
            "by_class": {}, "pc": {}}
     base0 = setup(v, sid, etm, seed, early)
-    if base0 is None and early:
+    if base0 is None and early is True:
         return rec      # suite not among the defaults of such a client
     if base0 is None:
         rec["fails"].append(({"fault": "setup"}, "handshake failed"))
@@ -531,6 +538,9 @@ def run(res, tier, seed):
     # one triple per record-protection family of TLS 1.0-1.2 again, after a
     # ClientHello that offered TLS 1.3 with early data
     from .c01 import family_reps
+    # every TLS 1.3 suite again after a HelloRetryRequest
+    items += [(v, sid, etm, tier, seed, "hrr")
+              for (v, sid, etm) in triples if v >= (3, 4)]
     items += [(v, sid, etm, tier, seed, "early")
               for (v, sid, etm) in family_reps(triples).values()
               if (3, 1) <= v <= (3, 3)]
